@@ -505,6 +505,12 @@ pub trait GuestMemory {
     where
         F: FnMut(usize, usize, MemoryRegionAddress, &Self::R) -> Result<usize>,
     {
+        // An access of zero bytes touches no memory: it succeeds at any address,
+        // as the `Bytes` contract documents for empty buffers.
+        if count == 0 {
+            return Ok(0);
+        }
+
         let mut cur = addr;
         let mut total = 0;
         while let Some(region) = self.find_region(cur) {
